@@ -62,6 +62,19 @@ def structured(ctx, d):
     return vs
 
 
+def tiny_pairs(ctx, d):
+    """operands scaled by exact powers of two far below machine epsilon: binding is bilinear over ALL scalars"""
+    r = ctx.rng
+    a = [F(r.randint(-8, 8), 4) for _ in range(d)]
+    b = [F(r.randint(-8, 8), 4) for _ in range(d)]
+    a[r.randrange(d)] = F(3, 4)
+    b[r.randrange(d)] = F(-5, 4)
+    out = []
+    for ka, kb in ((40, 40), (100, 0), (0, 70), (60, 30)):
+        out.append(([x / 2 ** ka for x in a], [x / 2 ** kb for x in b], "tiny-scaled"))
+    return out
+
+
 def fl(v):
     return np.array([float(x) for x in v], dtype=float)
 
@@ -83,6 +96,7 @@ def run(ctx):
             sv = structured(ctx, d)
             pairs += [(x, y, "structured") for x in sv[:6] for y in sv[:6]]
             pairs += [(sv[6], sv[4], "magnitude"), (sv[4], sv[7], "magnitude"), (sv[6], sv[7], "magnitude")]
+            pairs += tiny_pairs(ctx, d)
             for a, b, kind in pairs:
                 fa, fb = fl(a), fl(b)
                 ea, eb = [F(float(x)) for x in fa], [F(float(x)) for x in fb]
@@ -95,6 +109,10 @@ def run(ctx):
                 sc = float(np.linalg.norm(fa) * np.linalg.norm(fb)) * scale_s
                 if not (len(y) == d and all(common.close(yi, float(w) * scale_s, sc) for yi, w in zip(y, want))):
                     ctx.fail(case, [float(v) for v in y][:16], [float(w) * scale_s for w in want][:16], where=f"bind-formula-{alg}")
+                elif kind == "tiny-scaled" and not all(abs(float(yi) - float(w) * scale_s) <= 1e-9 * sc for yi, w in zip(y, want)):
+                    # relative to the operands' own magnitude (the absolute floor of 1e-9 would hide everything here)
+                    ctx.fail(dict(case, relative=True), [float(v) for v in y][:16], [float(w) * scale_s for w in want][:16],
+                             where=f"bind-formula-tiny-{alg}")
 
                 # integer-typed operands (same vectors, dtype int): the result must not depend on the array dtype
                 if kind in ("basis", "structured") and all(float(x).is_integer() for x in list(fa) + list(fb)) and d <= 16:
